@@ -31,6 +31,7 @@ class Ctx:
         self.npts = case.get('npts', 2)
         self.nexp = case.get('nexp', 2)
         self.int_scalars = case.get('int_scalars', True)
+        self.tiny_scalars = case.get('tiny_scalars', False)
         self.lp = [Point() for _ in range(self.npts)]
         self.le = [Expression() for _ in range(self.nexp)]
         self.P = {p: [env.real("p%d_%d" % (i, k)) for k in range(DIM)] for i, p in enumerate(self.lp)}
@@ -51,6 +52,14 @@ class Ctx:
 
     def scalar(self):
         env = self.env
+        if self.tiny_scalars:
+            # concrete scalars of extreme but legal magnitude (an absolute tolerance in a zero test would drop them)
+            # (powers of two: every sum / product / quotient in a tree of this size is exact in binary64, so the float
+            #  execution IS the real-arithmetic one and no rounding artefact can appear)
+            pool = [2.0 ** -27, -2.0 ** -30, 2.0 ** -28, 2.0 ** 4]
+            v = pool[self.ch(len(pool), 'tiny-scalar')]
+            self.trace.append(repr(v))
+            return v, v
         k = self.ch(2 if self.int_scalars else 1, 'scalar-kind')
         if k == 0:
             s = env.real("s%d" % self.ns)
@@ -524,6 +533,12 @@ def cases(tier):
             else:
                 cs.append(dict(id="tree-%s-%d-op%02d" % (top, b, first), kind='tree', top=top, budget=b, forced=[first],
                                npts=2, nexp=1 if small else 2, int_scalars=not small))
+    for top in ('P', 'E', 'C'):
+        for first in range(nops[top]):
+            # (a comparison adds one subtraction on top: budget 1 keeps every float operation exact)
+            cs.append(dict(id="tiny-%s-op%02d" % (top, first), kind='tree', top=top, budget=1 if top == 'C' else 2,
+                           forced=[first], npts=2, nexp=1,
+                           tiny_scalars=True, replay_tol=1e-14))
     odd = [n for n, _ in _ill_cases()]
     for lhs in ('P', 'E'):
         for op in ('add', 'radd', 'sub', 'rsub', 'mul', 'rmul', 'div', 'rdiv', 'pow3', 'le', 'eq'):
